@@ -1165,9 +1165,16 @@ def run_parent_spec(spec, rec):
         while steps < 100:
             steps += 1
             acts = []
+            # a worker has one unanswered job at a time (it takes the next one only
+            # after its result, or after the parent refused the job): an
+            # acknowledgement can only come from a worker that is free
+            busy_pids = {x['pid'] for x in jobs
+                         if x['state'] == 'acked' and x['response'] != NACK}
+            free_pids = [q for q in pids if q not in busy_pids]
             for j in jobs:
                 if j['state'] == 'new':
-                    acts.append((j, 'ack'))
+                    if free_pids:
+                        acts.append((j, 'ack'))
                     if j['cancel_at'] == 'before_ack' and not j.get('cancelled'):
                         acts.append((j, 'cancel'))
                 elif j['state'] == 'acked':
@@ -1194,6 +1201,8 @@ def run_parent_spec(spec, rec):
                     j['cancelled_in'] = j['state']
                     continue
                 if act == 'ack':
+                    if j['pid'] in busy_pids:
+                        j['pid'] = rng.choice(free_pids)
                     deliver((ACK, (h._job, None, j['t'], j['pid'], j['fd'])))
                 else:
                     c0 = counters[j['pid']].value
